@@ -64,9 +64,15 @@ class BuildError(Exception):
 # --------------------------------------------------------------------------------------------------
 
 class LeanLock:
+    """Serialises `lake build` / Generated-file writes (name = ".lean.lock") or, with name=".cxx.lock", the shared C++ builds
+    (instrumented runtime objects, /repo/_build): two different locks so a long Lean build does not block C++ builds."""
+
+    def __init__(self, name=".lean.lock"):
+        self.name = name
+
     def __enter__(self):
         os.makedirs(BUILD, exist_ok=True)
-        self.f = open(os.path.join(BUILD, ".lean.lock"), "w")
+        self.f = open(os.path.join(BUILD, self.name), "w")
         fcntl.flock(self.f, fcntl.LOCK_EX)
         return self
 
@@ -329,7 +335,7 @@ def shim_runtime_objects(extra_flags=(), timeout=1800):
     srcdir = os.path.join(REPO, "src", "tbb")
     srcs = sorted(os.path.join(srcdir, f) for f in os.listdir(srcdir) if f.endswith(".cpp"))
     flags = RT_FLAGS + list(extra_flags) + SHIM_FLAGS
-    with LeanLock():   # one builder at a time (the objects are shared by several properties)
+    with LeanLock(".cxx.lock"):   # one builder at a time (the objects are shared by several properties)
         with ThreadPoolExecutor(max_workers=NCPU) as ex:
             res = list(ex.map(lambda s_: _cxx_object(outdir, s_, flags, timeout), srcs))
     return [o for o, _ in res]
@@ -351,7 +357,7 @@ def ensure_repo_built(targets=("tbb", "tbbmalloc"), timeout=3600):
     b = os.path.join(REPO, "_build")
     if not os.path.isdir(b):
         return find_tbb_lib()
-    with LeanLock():
+    with LeanLock(".cxx.lock"):
         rc, o, e = sh(["cmake", "--build", b, "--target"] + list(targets) + ["-j", str(NCPU)], timeout=timeout)
     if rc != 0:
         raise BuildError("cmake --build of /repo failed:\n" + (o + e)[-4000:])
